@@ -181,6 +181,7 @@ type Exec struct {
 	directRecover bool
 	dbAx          []dbAxiom
 	constArrs     map[string]*Term
+	callCount     map[string]int
 	concatPrefix  map[string]string
 	globalFacts   []*Term // ground facts valid in every state (literal bytes, concat consequences)
 }
@@ -818,7 +819,10 @@ func (ex *Exec) setupEntry() {
 	ex.cur = ex.init.clone()
 	ex.pc = True
 	ex.assume(Gt(ex.getHeap(ex.init, "$nextref", SInt), IntLit(0)))
-	ex.assume(Ge(ex.getHeap(ex.init, "$trlen", SInt), IntLit(0)))
+	for tr := range ex.V.db.Traces {
+		ex.noteHeap(tr, ArrS(SInt, SEvent))
+		ex.assume(Ge(ex.getHeap(ex.init, tr+"len", SInt), IntLit(0)))
+	}
 	for _, p := range ex.fn.Params {
 		v := ex.freshVal(p.Name(), p.Type())
 		if v.T != nil {
@@ -864,10 +868,10 @@ func (ex *Exec) setupEntry() {
 	}
 	// function-level ghost variables
 	for _, c := range ex.spec.Clauses {
-		if c.Kind == "ghost" {
+		if c.Kind == "ghost" || c.Kind == "bind" {
 			t := ex.V.specType(c.Type, ex.pkg)
 			var v Val
-			if c.Expr != nil {
+			if c.Kind == "ghost" && c.Expr != nil {
 				v = ex.evalSpec(c.Expr, ex.envAt(ex.init, nil))
 			} else {
 				v = ex.freshVal("g."+c.Name, t)
